@@ -23,12 +23,12 @@ import (
 type c10Move struct {
 	Program  *program `json:"generated_program,omitempty"` // a generated program is its own replay
 	SrcPkg   string   `json:"src_pkg,omitempty"`
-	Prog     int    `json:"program"`
-	FromFile int    `json:"from_file"` // file of the last package
-	Decl     string `json:"decl"`      // name of the declaration to move
-	ToPkg    string `json:"to_pkg"`    // "" = same package
-	ToFile   int    `json:"to_file"`
-	Twice    bool   `json:"twice"` // move it on to a third place afterwards
+	Prog     int      `json:"program"`
+	FromFile int      `json:"from_file"` // file of the last package
+	Decl     string   `json:"decl"`      // name of the declaration to move
+	ToPkg    string   `json:"to_pkg"`    // "" = same package
+	ToFile   int      `json:"to_file"`
+	Twice    bool     `json:"twice"` // move it on to a third place afterwards
 }
 
 var c10Programs = []program{
